@@ -998,9 +998,31 @@ for _lab, _ann, _vals, _body in [
     _f5(_lab, _ann, _vals, _body)
 
 
+# multiple inheritance: a member defined incompatibly on the two sides, at every combination of depths (direct base /
+# grandparent) on each side, for a method, an attribute and a property; used through a reference typed at the second side
+F5_MI: list[tuple[str, str, list[str], list[str], list[str]]] = []
+for _ka, _ma, _mb, _use in [
+    ("method", "    def f(self) -> int:\n        return 0", "    def f(self) -> str:\n        return ''", "o.f()"),
+    ("attribute", "    v: int = 0", "    v: str = ''", "o.v"),
+    ("property", "    @property\n    def q(self) -> int:\n        return 0",
+     "    @property\n    def q(self) -> str:\n        return ''", "o.q"),
+]:
+    for _da in (0, 1, 2):
+        for _db in (0, 1, 2):
+            _pre = [f"class MA0§:\n{_ma}", "class MA1§(MA0§):\n    pass", "class MA2§(MA1§):\n    pass",
+                    f"class MB0§:\n{_mb}", "class MB1§(MB0§):\n    pass", "class MB2§(MB1§):\n    pass",
+                    f"class MC§(MA{_da}§, MB{_db}§):\n    pass", ""]
+            F5_MI.append((f"mi-{_ka}-depth{_da}x{_db}", "MB0§", ["MC§()"], [f"probe(1, {_use})"],
+                          "\n".join(_pre).split("\n")))
+
+
 def gen_f5() -> list[dict]:
     """F5: one module-level copy of the class zoo per function (suffix §), receiver `o`."""
     out = []
+    for label, ann, vals, body, extra in F5_MI:
+        pre = extra + [f"def rdom§() -> list[{ann}]:", f"    return [{', '.join(vals)}]", ""]
+        out.append({"fam": "F5", "key": [label, ann.replace("§", "")], "params": [], "pre": pre, "body": body,
+                    "ret": "None", "recv": (ann, vals)})
     for label, ann, vals, body in F5_CASES:
         pre = F5_PRE.split("\n") + [f"def rdom§() -> list[{ann}]:", f"    return [{', '.join(vals)}]", ""]
         out.append({"fam": "F5", "key": [label, ann.replace("§", "")], "params": [], "pre": pre, "body": body,
